@@ -20,8 +20,8 @@ CHANNELS = ["A", "B"]
 CHANSETS = [["A"], ["B"], ["A", "B"], []]  # [] = any channel
 
 # operation kinds
-ADD, PULL, RUN, FINISH, KILL, TICK, DISCONNECT, WAIT, READD, SETINFO, RESTORE, FINISH_ID = range(12)
-OPNAMES = ["add", "pull", "run", "finish", "kill", "tick", "disconnect", "wait", "readd", "setinfo", "restore", "finish-id"]
+ADD, PULL, RUN, FINISH, KILL, TICK, DISCONNECT, WAIT, READD, SETINFO, RESTORE, FINISH_ID, WATCHDOG = range(13)
+OPNAMES = ["add", "pull", "run", "finish", "kill", "tick", "disconnect", "wait", "readd", "setinfo", "restore", "finish-id", "watchdog"]
 FINISH_ERRORS = [None, "x", ""]
 
 
@@ -132,6 +132,8 @@ class RJ:
         self.error = None
         self.info = {}
         self.cause = "added"  # last transition, for the violation signature
+        self.dropped = False  # removed by the watchdog after its time-to-live (finished jobs only)
+        self.superseded = False  # killed and re-added: a newer enqueueing owns the id now
 
     def key(self):
         return (self.prio, self.serial)
@@ -159,7 +161,7 @@ class Violation(Exception):
 
 class Sim:
     def __init__(self, jobs_mod, qserve_mod, choices=(), nworkers=3, props=("C16", "C17"), pickler=None, start=1000):
-        self.jobs = jobs_mod
+        self.jobs_mod = jobs_mod
         self.qserve = qserve_mod
         self.props = props
         self.pickler = pickler or copy.deepcopy
@@ -174,14 +176,14 @@ class Sim:
         self._bind()
         self.nworkers = nworkers
         self.workers = [Conn(i, self.Handler()) for i in range(nworkers)]
-        self.ref = {}  # jid -> RJ
-        self.order = []  # accepted job ids in acceptance order
-        self.waits = []  # (greenlet, jid)
-        self.suspicions = []  # (kind, better_id, epoch, context)
+        self.ref = {}  # jid -> RJ (the current enqueueing under that id)
+        self.order = []  # ids in acceptance order (each id once)
+        self.jobs = []  # every enqueueing ever accepted (a killed id can be enqueued again), in order
+        self.waits = []  # (greenlet, RJ)
+        self.suspicions = []  # (kind, better RJ, epoch, context)
         self.restored = False
         self.history = []
         self.greenlets = []
-        self.finished_count = 0
         self.max_worker = -1  # symmetry breaking: worker i is only named after worker i-1 has been
         self.chan_seen = False  # symmetry breaking: the first channel named is "A"
 
@@ -193,6 +195,7 @@ class Sim:
 
     def _bind(self):
         self.wq = self.db.workq
+
         # NB: not type(name, bases, {...}): CrossHair's model of the 3-argument type() copies the dict's values
         class Handler(self.qserve.QPlugin):
             pass
@@ -236,21 +239,26 @@ class Sim:
         return True
 
     def fail(self, prop, kind, **ctx):
-        if self.want(prop) or (prop == "C18" and "C18" in self.props):
+        if self.want(prop):
             raise Violation(prop, kind, **ctx)
 
     def snapshot(self, jid):
         return self.client.rpc_qinfo(jid)
 
+    def by_serial(self, serial):
+        for r in self.jobs:
+            if r.serial == serial:
+                return r
+        return None
+
     # ------------------------------------------------------------------ observations shared by several ops
-    def observe_handoffs(self, jids, cause):
+    def observe_handoffs(self, rjs, cause):
         """After a push: did the job go to a blocked puller (its AsyncResult now carries it)?"""
-        for jid in jids:
-            rj = self.ref[jid]
+        for rj in rjs:
             for w in self.workers:
                 if w.blocked and w.ev is not None and w.ev.ready():
                     v = w.ev._value
-                    if v is not None and getattr(v, "jobid", None) == jid and getattr(v, "serial", None) == rj.serial:
+                    if v is not None and getattr(v, "serial", None) == rj.serial:
                         rj.state = "pending"
                         rj.holder = w.idx
                         rj.cause = cause + "->handed-to-blocked-puller"
@@ -259,15 +267,28 @@ class Sim:
     def check_outcomes(self, after):
         """finality (C17) / persistence (C18): every finished job shows its first outcome; unfinished ones are not done."""
         nfin = 0
+        for r in self.jobs:
+            if r.state == "done":
+                nfin += 1
         for jid in self.order:
             rj = self.ref[jid]
+            if rj.dropped:
+                continue
             snap = self.snapshot(jid)
             if snap is None:
+                if rj.state == "done" and self.watchdog_ran:
+                    rj.dropped = True  # a finished job may be dropped once its time-to-live is over
+                    continue
                 self.fail("C16", "job-vanished", job=jid, after=after, cause=rj.cause)
+                self.fail("C17", "job-vanished", job=jid, after=after, cause=rj.cause)
                 self.fail("C18", "job-vanished", job=jid, after=after, cause=rj.cause)
                 continue
+            if snap.get("serial") != rj.serial:
+                self.fail("C17", "job-id-names-another-job", job=jid, after=after, expected_serial=rj.serial, found_serial=snap.get("serial"))
+                self.fail("C16", "job-id-names-another-job", job=jid, after=after, expected_serial=rj.serial, found_serial=snap.get("serial"))
+                self.fail("C18", "job-id-names-another-job", job=jid, after=after, expected_serial=rj.serial, found_serial=snap.get("serial"))
+                continue
             if rj.state == "done":
-                nfin += 1
                 if not snap.get("done", False):
                     self.fail("C17", "finished-job-became-unfinished", job=jid, after=after)
                     self.fail("C18", "finished-job-became-unfinished", job=jid, after=after)
@@ -290,31 +311,31 @@ class Sim:
             if total != nfin:
                 self.fail("C17", "stats-do-not-add-up", counted=total, finished=nfin, after=after)
         # waiting clients are released exactly when their job is finished
-        for g, jid in list(self.waits):
-            rj = self.ref[jid]
+        for g, rj in list(self.waits):
             ev_set = g._wait_ev.is_set()
             if rj.state == "done" and not ev_set:
-                self.fail("C17", "waiter-not-released", job=jid, after=after)
+                self.fail("C17", "waiter-not-released", job=rj.id, after=after)
             if ev_set:
                 out = g.switch()
-                self.waits.remove((g, jid))
+                self.waits.remove((g, rj))
                 if out[0] != "done":
-                    self.fail("C17", "waiter-not-released", job=jid, after=after)
+                    self.fail("C17", "waiter-not-released", job=rj.id, after=after)
                 elif rj.state != "done":
-                    self.fail("C17", "waiter-released-early", job=jid, after=after)
+                    self.fail("C17", "waiter-released-early", job=rj.id, after=after)
+
+    watchdog_ran = False
 
     def candidates(self, chans):
         out = []
-        for jid in self.order:
-            rj = self.ref[jid]
+        for rj in self.jobs:
             if rj.state == "queued" and (not chans or rj.channel in chans):
                 out.append(rj)
         return out
 
     def delivery(self, w, snap, immediate, cands):
         jid = snap["jobid"]
-        rj = self.ref.get(jid)
-        if rj is None or snap.get("serial") != rj.serial:
+        rj = self.by_serial(snap.get("serial"))
+        if rj is None or rj.id != jid:
             self.fail("C16", "phantom-job-delivered", job=jid)
             return
         if w.chans and rj.channel not in w.chans:
@@ -327,18 +348,24 @@ class Sim:
         if rj.state != "done" and rj.deliveries + 1 > 1 + rj.requeues:
             self.fail("C16", "handed-out-twice", job=jid, deliveries=rj.deliveries + 1, requeues=rj.requeues, cause=rj.cause)
         for s in self.suspicions:
-            if s[1] == jid and s[2] == rj.requeues and rj.state == "queued":
+            if s[1] is rj and s[2] == rj.requeues and rj.state == "queued":
                 self.fail("C17", s[0], job=s[3], better=jid)
         if immediate and rj.state != "done":
             for r in cands:
-                if r.id != jid and r.key() < rj.key():
-                    self.suspicions.append(("not-lowest-priority-oldest-first", r.id, r.requeues, jid))
+                if r is not rj and r.key() < rj.key():
+                    self.suspicions.append(("not-lowest-priority-oldest-first", r, r.requeues, jid))
         if rj.state != "done":
             rj.state = "held"
             rj.holder = w.idx
             rj.cause = "delivered"
         rj.deliveries += 1
-        w.held.append(jid)
+        w.held.append(rj)
+
+    def _finish_ref(self, rj, result, error, cause):
+        if rj.state != "done":
+            rj.state = "done"
+            rj.result, rj.error = result, error
+            rj.cause = cause
 
     # ------------------------------------------------------------------ operations
     def op_add(self, ch, prio, timeout):
@@ -349,20 +376,27 @@ class Sim:
         assume(1 <= timeout)
         channel = CHANNELS[ch]
         self.history.append(["add", channel, prio, timeout])
-        before = set(self.order)
         jid = self.client.rpc_qadd(channel=channel, payload=None, priority=prio, timeout=timeout)
-        if jid in before:
+        if jid in self.ref:
             self.fail("C18" if self.restored else "C17", "job-id-reused", job=jid)
             self.fail("C16", "job-id-reused", job=jid)
             return
-        rj = RJ(jid, channel, prio, len(self.order) + 1, self.now + timeout)
+        self._accept(jid, channel, prio, timeout)
+        self.check_outcomes("add")
+
+    def _accept(self, jid, channel, prio, timeout):
+        rj = RJ(jid, channel, prio, len(self.jobs) + 1, self.now + timeout)
         snap = self.snapshot(jid)
         if snap is not None:
             rj.serial = snap["serial"]
+        if jid in self.ref:
+            self.ref[jid].superseded = True
+        else:
+            self.order.append(jid)
         self.ref[jid] = rj
-        self.order.append(jid)
-        self.observe_handoffs([jid], "added")
-        self.check_outcomes("add")
+        self.jobs.append(rj)
+        self.observe_handoffs([rj], "added")
+        return rj
 
     def op_pull(self, widx, cs):
         self.name_worker(widx)
@@ -379,8 +413,6 @@ class Sim:
         g, out = self.spawn(w.handler.rpc_qpull, chans)
         if out[0] == "done":
             self.delivery(w, out[1], True, cands)
-            if not cands:
-                pass  # delivery() already judged where the job came from
         else:
             w.gr = g
             w.ev = out[1]
@@ -389,7 +421,7 @@ class Sim:
                 for r in cands:
                     if r.key() < best.key():
                         best = r
-                self.suspicions.append(("pull-blocked-although-candidate-queued", best.id, best.requeues, "worker%d" % widx))
+                self.suspicions.append(("pull-blocked-although-candidate-queued", best, best.requeues, "worker%d" % widx))
         self.check_outcomes("pull")
 
     def op_run(self, widx):
@@ -402,19 +434,24 @@ class Sim:
 
     def _resume(self, w):
         g = w.gr
+        cands = self.candidates(w.chans)
         out = g.switch()
         if out[0] != "done":
-            # woke up and blocked again: stays a blocked puller
+            # woke up and blocked again (its job had finished meanwhile): stays a blocked puller
             w.ev = out[1]
+            for r in self.jobs:
+                if r.state == "pending" and r.holder == w.idx:
+                    r.state = "missing"
+                    r.cause = "hand-off not picked up by the woken puller"
             return
         w.gr = None
         w.ev = None
         snap = out[1]
-        rj = self.ref.get(snap["jobid"])
-        # other jobs the reference believed pending on this puller were overwritten / never delivered
-        self.delivery(w, snap, False, [])
-        for jid in self.order:
-            r = self.ref[jid]
+        got = self.by_serial(snap.get("serial"))
+        # a woken puller whose job had finished meanwhile may take a queued job instead: same rules as a direct pull
+        immediate = got is not None and got.state == "queued"
+        self.delivery(w, snap, immediate, cands if immediate else [])
+        for r in self.jobs:
             if r.state == "pending" and r.holder == w.idx:
                 r.state = "missing"
                 r.cause = "hand-off overwritten by a later push to the same blocked puller"
@@ -425,33 +462,34 @@ class Sim:
         assume(not w.blocked)
         assume(0 <= err < len(FINISH_ERRORS))
         if by_id:
-            jid = which  # canonical prefixes name the job directly
-            assume(jid in w.held)
+            held = None  # canonical prefixes name the job directly
+            for r in w.held:
+                if r.id == which:
+                    held = r
+            assume(held is not None)
         else:
             assume(0 <= which < len(w.held))
-            jid = w.held[which]
+            held = w.held[which]
+        jid = held.id
         error = FINISH_ERRORS[err]
         result = None if error else {"r": jid}
         self.history.append(["finish", widx, jid, error])
         w.handler.rpc_qfinish(jid, result=result, error=error)
-        w.held.remove(jid)
-        rj = self.ref[jid]
-        if rj.state != "done":
-            rj.state = "done"
-            rj.result, rj.error = result, error
-            rj.cause = "finished"
+        w.held.remove(held)
+        # the report goes by id: it lands on whatever enqueueing owns the id now
+        target = self.ref[jid]
+        if not target.dropped:
+            self._finish_ref(target, result, error, "finished")
         self.check_outcomes("finish")
 
     def op_kill(self, which):
         assume(0 <= which < len(self.order))
         jid = self.order[which]
+        rj = self.ref[jid]
+        assume(not rj.dropped)
         self.history.append(["kill", jid])
         self.client.rpc_qkill([jid])
-        rj = self.ref[jid]
-        if rj.state != "done":
-            rj.state = "done"
-            rj.result, rj.error = None, "killed"
-            rj.cause = "killed"
+        self._finish_ref(rj, None, "killed", "killed")
         self.check_outcomes("kill")
 
     def op_tick(self, delta):
@@ -459,22 +497,22 @@ class Sim:
         self.history.append(["tick", delta])
         self.now = self.now + delta
         self.wq.handletimeouts()
-        for jid in self.order:
-            rj = self.ref[jid]
+        for rj in self.jobs:
             if rj.state != "done":
                 if rj.deadline < self.now:
-                    rj.prev = rj.state
-                    rj.state = "done"
-                    rj.result, rj.error = None, "timeout"
-                    rj.cause = "timed-out while " + rj.prev
-                elif rj.deadline == self.now:
-                    snap = self.snapshot(jid)  # boundary instant: either reading is acceptable
+                    self._finish_ref(rj, None, "timeout", "timed-out while " + rj.state)
+                elif rj.deadline == self.now and self.ref.get(rj.id) is rj:
+                    snap = self.snapshot(rj.id)  # boundary instant: either reading is acceptable
                     if snap is not None and snap.get("done", False) and snap.get("error") == "timeout":
-                        rj.prev = rj.state
-                        rj.state = "done"
-                        rj.result, rj.error = None, "timeout"
-                        rj.cause = "timed-out while " + rj.prev
+                        self._finish_ref(rj, None, "timeout", "timed-out while " + rj.state)
         self.check_outcomes("tick")
+
+    def op_watchdog(self):
+        """the server's periodic dropdead(): finished jobs get a drop deadline (ttl) and are dropped after it"""
+        self.history.append(["watchdog"])
+        self.wq.dropdead()
+        self.watchdog_ran = True
+        self.check_outcomes("watchdog")
 
     def op_disconnect(self, widx):
         self.name_worker(widx)
@@ -487,19 +525,18 @@ class Sim:
             w.ev = None
         w.handler.shutdown()
         back = []
-        for jid in self.order:
-            rj = self.ref[jid]
+        for rj in self.jobs:
             if rj.state == "pending" and rj.holder == w.idx:
                 rj.state = "queued"
                 rj.holder = None
                 rj.cause = "hand-off pending when its puller disconnected"
-                back.append(jid)
+                back.append(rj)
             elif rj.state == "held" and rj.holder == w.idx:
                 rj.state = "queued"
                 rj.holder = None
                 rj.requeues += 1
                 rj.cause = "requeued after its worker disconnected"
-                back.append(jid)
+                back.append(rj)
         w.handler = self.Handler()
         w.held = []
         self.observe_handoffs(back, "requeued")
@@ -508,8 +545,9 @@ class Sim:
     def op_wait(self, which):
         assume(0 <= which < len(self.order))
         jid = self.order[which]
-        self.history.append(["wait", jid])
         rj = self.ref[jid]
+        assume(not rj.dropped)
+        self.history.append(["wait", jid])
         g, out = self.spawn(self.Handler().rpc_qwait, [jid])
         if out[0] == "done":
             if rj.state != "done":
@@ -518,20 +556,27 @@ class Sim:
             if rj.state == "done":
                 self.fail("C18" if self.restored else "C17", "wait-on-finished-job-blocks", job=jid)
             g._wait_ev = out[1]
-            self.waits.append((g, jid))
+            self.waits.append((g, rj))
         self.check_outcomes("wait")
 
     def op_readd(self, which):
+        """add under an id that already exists: the existing job is returned, unless it was killed (then it is enqueued anew)"""
         assume(0 <= which < len(self.order))
         jid = self.order[which]
         rj = self.ref[jid]
-        assume(rj.error != "killed")
+        assume(not rj.dropped)
         self.history.append(["readd", jid])
         n0 = self.client.rpc_getstats()["numjobs"]
-        r = self.client.rpc_qadd(channel=rj.channel, jobid=jid, priority=rj.prio)
+        r = self.client.rpc_qadd(channel=rj.channel, jobid=jid, priority=rj.prio, timeout=500)
         n1 = self.client.rpc_getstats()["numjobs"]
         snap = self.snapshot(jid)
-        if r != jid or n1 != n0 or snap is None or snap["serial"] != rj.serial:
+        if rj.state == "done" and rj.error == "killed":
+            if r != jid or snap is None or snap.get("serial") == rj.serial or snap.get("done", False):
+                self.fail("C17", "killed-job-not-enqueued-anew", job=jid, returned=r)
+                self.check_outcomes("readd")
+                return
+            self._accept(jid, rj.channel, rj.prio, 500)
+        elif r != jid or n1 != n0 or snap is None or snap.get("serial") != rj.serial:
             self.fail("C17", "re-add-created-second-job", job=jid, returned=r, numjobs=[n0, n1])
         self.check_outcomes("readd")
 
@@ -539,6 +584,7 @@ class Sim:
         assume(0 <= which < len(self.order))
         assume(0 <= val < 2)
         jid = self.order[which]
+        assume(not self.ref[jid].dropped)
         self.history.append(["setinfo", jid, val])
         self.client.rpc_qsetinfo(jid, {"status": "s%d" % val})
         self.ref[jid].info["status"] = "s%d" % val
@@ -555,8 +601,9 @@ class Sim:
         self.waits = []
         self.suspicions = []
         self.restored = True
-        for jid in self.order:
-            rj = self.ref[jid]
+        for rj in self.jobs:
+            if rj.superseded and self.ref.get(rj.id) is not rj:
+                continue  # an id's older enqueueing is not part of the saved state
             if rj.state in ("held",):
                 rj.requeues += 1
             if rj.state in ("held", "pending", "missing"):
@@ -590,6 +637,8 @@ class Sim:
             self.op_restore()
         elif op == FINISH_ID:
             self.op_finish(a, b, c, by_id=True)
+        elif op == WATCHDOG:
+            self.op_watchdog()
         else:
             assume(False)
 
@@ -601,7 +650,7 @@ class Sim:
                 self._resume(w)
         fresh = Conn(99, self.Handler())
         fresh.chans = []
-        for _ in range(len(self.order) + 1):
+        for _ in range(len(self.jobs) + 1):
             cands = self.candidates([])
             g, out = self.spawn(fresh.handler.rpc_qpull, [])
             if out[0] != "done":
@@ -609,12 +658,11 @@ class Sim:
             self.delivery(fresh, out[1], True, cands)
         else:
             self.fail("C16", "drain-does-not-terminate")
-        for jid in self.order:
-            rj = self.ref[jid]
+        for rj in self.jobs:
             if rj.state not in ("done", "held"):
-                self.fail("C16", "job-lost", job=jid, last_state=rj.state, cause=rj.cause)
+                self.fail("C16", "job-lost", job=rj.id, last_state=rj.state, cause=rj.cause)
                 if self.restored:
-                    self.fail("C18", "job-lost", job=jid, last_state=rj.state, cause=rj.cause)
+                    self.fail("C18", "job-lost", job=rj.id, last_state=rj.state, cause=rj.cause)
         self.check_outcomes("drain")
 
 
